@@ -2,15 +2,134 @@ import MaltModel.Analysis.ActivityFn
 import MaltModel.Analysis.ActivityHyp
 import MaltModel.Spec.Symtable
 import MaltModel.Spec.Dynamic
+import MaltModel.Proofs.C08Activity
+import MaltModel.Proofs.C08Dynamic
 /-
-C08 — scope (activity) analysis matches Python's own binding rules.  (theorems: under construction)
+C08 — scope (activity) analysis matches Python's own binding rules.
+
+Objects: `Analysis.Activity` (functional mirror of activity.py, tied to the code by correspondence on every
+run), `Spec.Symtable` (Python's binding rules, tied to CPython's `symtable`), `Spec.Dynamic` (what executing
+one statement-level node reads / rebinds / deletes, tied to opcode traces of real executions).
+
+Theorems (all for every program of the stated fragment, every analyzer state; no sampling):
+  C08_compositional   the scope-stack machinery (finalize, copy_from/merge_from checkpointing of parallel
+                      blocks, isolated scopes) computes exactly the syntactic effect `effS`
+  C08_dynamic_partial every statement-level node of a function tree gets a SCOPE / ITERATE_SCOPE annotation
+                      whose read set contains what the node actually reads and whose modified ∪ deleted
+                      set contains what it actually rebinds or deletes        (the `hgen` premise of C06/C07)
+  C08_dynamic_lookup  the same through `anno?` (the lookup C06/C07 use), when annotations are unique per node
+The fragment `FragS` excludes comprehensions, parameter annotations, async constructs and
+`EXTRA_LOOP_TEST`; these are covered by the correspondence and the oracles only.
 -/
 namespace Malt.Props.C08
-open Malt.Py Malt.Analysis
+open Malt.Py Malt.Analysis Malt.Spec
 
-/-- Finalizing a non-isolated scope exports exactly `read - isolated_names` to the parent. -/
-theorem finalize_nonisolated_read (c p : Scope) (h : c.isolated = false) (q : QN) :
-    q ∈ (c.finalizeInto p).read ↔ q ∈ p.read ∨ (q ∈ c.read ∧ q ∉ c.isolatedNames) := by
-  simp [Scope.finalizeInto, h]
+/-- The analyzer starts in a statement-level state. -/
+theorem init_plainS : PlainS St.init [] :=
+  ⟨⟨by simp [St.init], rfl, rfl⟩, ⟨rfl, rfl, rfl⟩⟩
+
+/-- **Compositionality of the activity analysis.**  For every statement `t` of the fragment, analysing it
+    adds exactly the syntactically defined effect `effS [] t` to the root scope and leaves the rest of the
+    analyzer state as it was: the stateful implementation strategy (a stack of mutable scopes, `finalize`
+    exporting to the parent, `_process_parallel_blocks` checkpointing with `copy_from`/`merge_from`) is
+    equivalent to a bottom-up attribute computation. -/
+theorem C08_compositional (t : Stmt) (hf : FragS t = true) : Adds St.init (analyze t) (effS [] t) :=
+  visitS_adds t St.init [] init_plainS hf
+
+/-- …in every statement-level analyzer state, not only the initial one (this is the form used for the
+    statements nested in function bodies, branches and loops). -/
+theorem C08_compositional_state (s : Stmt) (st : St) (fns : List FnCtx) (p : PlainS st fns) (hf : FragS s = true) :
+    Adds st (visitS s st) (effS fns s) :=
+  visitS_adds s st fns p hf
+
+/- FULL STATEMENT (not proved in this generality):
+   theorem C08_dynamic (t : Stmt) : ∀ u ∈ Spec.unitsS t,
+       ∃ c, (analyze t).anno? u.id (keyOf u.key) = some c ∧ Good u c
+   It is FALSE of the pinned code for
+     * a named expression inside a comprehension (class `walrusInComp`): `[(y := t) for t in b]` rebinds `y`,
+       the statement's `modified` does not contain it            — counterexample `walrus_counterexample` below;
+     * parameter annotations of a nested def (class `argAnnotations`): `def g(a: T)` reads `T` when the def
+       executes, the def statement's `read` does not contain it  — counterexample `annotation_counterexample`.
+   `C08_dynamic_partial` proves it for all statement-level units of the fragment `FragS` (which excludes
+   exactly comprehensions and parameter annotations, besides async/EXTRA_LOOP_TEST), in membership form;
+   `C08_dynamic_lookup` gives the `anno?` form under uniqueness of annotations per (node, key).
+   Missing: units inside comprehensions, lambda-body units. -/
+
+/-- **Dynamic soundness of the statement scopes.**  For every function tree `t` of the fragment and every
+    statement-level node `u` of it (simple statement, `if`/`while` test, `for` iterable, `for` target
+    assignment, `with` item, `def`/`class` statement — at any nesting depth, also inside nested functions and
+    classes), the analysis has annotated the node with a scope `c` such that every variable the node actually
+    reads is in `c.read` and every variable it actually rebinds or deletes is in `c.modified ∪ c.deleted`. -/
+theorem C08_dynamic_partial (t : Stmt) (hf : FragS t = true) :
+    ∀ u ∈ stmtUnits t, ∃ c, (u.id, keyOf u.key, c) ∈ (analyze t).annos ∧
+      (∀ x ∈ u.reads, QN.sym x ∈ c.read) ∧ (∀ x ∈ u.writes, QN.sym x ∈ c.modified ∨ QN.sym x ∈ c.deleted) :=
+  visitS_units t St.init [] init_plainS hf
+
+/-- No two annotations of the run sit on the same node with the same key. -/
+def UniqueAnnos (l : List Anno) : Prop := l.Pairwise fun a b => ¬ (a.1 = b.1 ∧ a.2.1 = b.2.1)
+
+private theorem find_of_unique (l : List Anno) (hu : UniqueAnnos l) (i : Nat) (k : AnnoKey) (c : Analysis.Scope)
+    (hm : (i, k, c) ∈ l) : l.find? (fun a => a.1 == i && a.2.1 == k) = some (i, k, c) := by
+  induction l with
+  | nil => simp at hm
+  | cons a r ih =>
+    simp only [UniqueAnnos, List.pairwise_cons] at hu
+    simp only [List.mem_cons] at hm
+    rcases hm with hm | hm
+    · subst hm; simp
+    · have hne : ¬ (a.1 = i ∧ a.2.1 = k) := fun h => hu.1 _ hm ⟨h.1, h.2⟩
+      have : (a.1 == i && a.2.1 == k) = false := by
+        by_cases h1 : a.1 = i
+        · by_cases h2 : a.2.1 = k
+          · exact absurd ⟨h1, h2⟩ hne
+          · simp [h2]
+        · simp [h1]
+      simp only [List.find?_cons, this]
+      exact ih hu.2 hm
+
+/-- **The form consumed by the dataflow properties (C06/C07)**: looking the annotation up by node id. -/
+theorem C08_dynamic_lookup (t : Stmt) (hf : FragS t = true) (hu : UniqueAnnos (analyze t).annos) :
+    ∀ u ∈ stmtUnits t, ∃ c, (analyze t).anno? u.id (keyOf u.key) = some c ∧
+      (∀ x ∈ u.reads, QN.sym x ∈ c.read) ∧ (∀ x ∈ u.writes, QN.sym x ∈ c.modified ∨ QN.sym x ∈ c.deleted) := by
+  intro u huu
+  obtain ⟨c, hc, hg⟩ := C08_dynamic_partial t hf u huu
+  exact ⟨c, by rw [St.anno?, find_of_unique _ hu _ _ _ hc]; rfl, hg⟩
+
+/-! ### instances: the hypotheses are satisfiable, the exclusions are necessary -/
+
+/-- `def f(a): x = a; x += 1; (with a as y: del y); (def g(): return x); if x: return g`. -/
+def sampleTree : Stmt :=
+  .functionDef 1 "f" (.arguments 2 [] [.arg 3 "a" []] [] [] [] [] [])
+    [ .assign 4 [.name 5 "x" .store] (.name 6 "a" .load),
+      .augAssign 7 (.name 8 "x" .store) "Add" (.const 9 "int" "1"),
+      .with_ 10 [.withitem 11 (.name 12 "a" .load) [.name 13 "y" .store]] [.delete 14 [.name 15 "y" .del]] false,
+      .functionDef 16 "g" (.arguments 17 [] [] [] [] [] [] []) [.ret 18 [.name 19 "x" .load]] [] [] false,
+      .if_ 20 (.name 21 "x" .load) [.ret 22 [.name 23 "g" .load]] [] ] [] [] false
+
+example : FragS sampleTree = true := by decide
+example : (stmtUnits sampleTree).length = 9 := by decide
+/-- the `x += 1` node: reads and rebinds `x`, and the recorded scope says so -/
+example : ((analyze sampleTree).anno? 7 .scope).map (fun c => (c.read.contains (.sym "x"), c.modified.contains (.sym "x")))
+    = some (true, true) := by decide
+
+/-- `r = [(y := t) for t in b]` rebinds `y`; the statement's scope has neither `y ∈ modified` nor `y ∈ deleted`. -/
+def walrusStmt : Stmt :=
+  .assign 1 [.name 2 "r" .store]
+    (.comp 3 .listComp [.namedexpr 4 (.name 5 "y" .store) (.name 6 "t" .load)]
+      [.comprehension 7 (.name 8 "t" .store) (.name 9 "b" .load) [] false])
+
+example : "y" ∈ ((stmtUnits walrusStmt).map (·.writes)).flatten := by decide
+theorem walrus_counterexample :
+    ((analyze walrusStmt).anno? 1 .scope).map (fun c => c.modified.contains (.sym "y") || c.deleted.contains (.sym "y"))
+      = some false := by decide
+example : walrusInComp walrusStmt = ["y"] := by decide
+
+/-- `def g(a: T): pass` reads `T` when the def executes; the def statement's scope does not have `T ∈ read`. -/
+def annotatedDef : Stmt :=
+  .functionDef 1 "g" (.arguments 2 [] [.arg 3 "a" [.name 4 "T" .load]] [] [] [] [] []) [.pass 5] [] [] false
+
+example : "T" ∈ ((stmtUnits annotatedDef).map (·.reads)).flatten := by decide
+theorem annotation_counterexample :
+    ((analyze annotatedDef).anno? 1 .scope).map (fun c => c.read.contains (.sym "T")) = some false := by decide
 
 end Malt.Props.C08
